@@ -121,11 +121,18 @@ class Host(object):
             self.loop.close()
 
 
+OUTCOMES = []       # every outcome observed since the list was last cleared: ('ok', repr(result)) | ('exc', class name)   (used by C16)
+
+
 def outcome(fn):
     """(kind, value): ('ok', result) or ('exc', ExceptionClassName, str)."""
     try:
-        return ('ok', fn())
+        r = ('ok', fn())
+        OUTCOMES.append(('ok', repr(r[1])[:2000]))
+        return r
     except adbd.Fault as e:
+        OUTCOMES.append(('exc', 'Fault'))
         return ('exc', 'Fault', str(e))
     except Exception as e:      # noqa
+        OUTCOMES.append(('exc', type(e).__name__))
         return ('exc', type(e).__name__, str(e)[:200])
